@@ -349,6 +349,79 @@ theorem C11_readonly_history (evs : List Ev) (hp : ∀ e ∈ evs, Ev.passive e) 
     show (evRun (evStep w e).1 evs).1.disk = w.disk
     rw [this, hstep.1]
 
+/-- opening an existing file with any letter but the overwrite one — read-only, read-write or an
+invalid one — keeps header and content, whatever the outcome -/
+theorem C11_open_keeps (mode : Str) (hm : mode ≠ modeOverwrite) (d : Disk) (fid : Str) :
+    ∃ d', (openFile mode (some d) fid).1 = some d' ∧ d'.header = d.header ∧ d'.content = d.content := by
+  simp only [openFile, hm, if_false]
+  cases hmm : mapFileMode mode with
+  | error e => exact ⟨d, rfl, rfl, rfl⟩
+  | ok a =>
+    by_cases ht : a = .trunc
+    · simp only [ht, if_true]; exact ⟨d, rfl, rfl, rfl⟩
+    · simp only [ht, if_false, checkAndFinish]
+      cases checkHeader mode d.header with
+      | error e => exact ⟨d, rfl, rfl, rfl⟩
+      | ok u =>
+        by_cases hro : a = .rdonly
+        · by_cases hc : (d.hasData && d.hasMeta && d.hasCreated && d.hasUpdated) = true
+          · simp only [finishOpen, hro, if_true, hc]; exact ⟨d, rfl, rfl, rfl⟩
+          · simp only [finishOpen, hro, if_true, hc]; exact ⟨d, rfl, rfl, rfl⟩
+        · simp only [finishOpen, hro, if_false]; exact ⟨_, rfl, rfl, rfl⟩
+
+/-- an event that neither overwrites, nor removes, nor calls a mutator -/
+def Ev.conservative : Ev → Prop
+  | .open mode _ => mode ≠ modeOverwrite
+  | .op (.read _) => True
+  | .op (.mutate _) => False
+  | .close => True
+  | .remove => False
+
+/-- **Histories, read-write.** Over any sequence of sessions on an existing file that never opens
+with overwrite, never removes the path and calls no mutator — however often it is opened in the
+default read-write mode, read-only, or with a wrong letter, accepted or refused — header and
+content stay what they were. -/
+theorem C11_conservative_history (evs : List Ev) (hp : ∀ e ∈ evs, Ev.conservative e) (sess : Option Session)
+    (d : Disk) :
+    ∃ d', (evRun ⟨some d, sess⟩ evs).1.disk = some d' ∧ d'.header = d.header ∧ d'.content = d.content := by
+  induction evs generalizing sess d with
+  | nil => exact ⟨d, rfl, rfl, rfl⟩
+  | cons e evs ih =>
+    have hpe := hp e (List.mem_cons_self ..)
+    have hstep : ∃ d1 s1, (evStep ⟨some d, sess⟩ e).1 = ⟨some d1, s1⟩ ∧ d1.header = d.header ∧ d1.content = d.content := by
+      cases e with
+      | «open» mode fid =>
+        simp only [Ev.conservative] at hpe
+        cases sess with
+        | some s0 => exact ⟨d, some s0, rfl, rfl, rfl⟩
+        | none =>
+          obtain ⟨d', h1, h2, h3⟩ := C11_open_keeps mode hpe d fid
+          cases hr : openFile mode (some d) fid with
+          | mk od r =>
+            rw [hr] at h1
+            simp only at h1
+            subst h1
+            cases r with
+            | error x => exact ⟨d', none, by simp [evStep, hr], h2, h3⟩
+            | ok s1 => exact ⟨d', some s1, by simp [evStep, hr], h2, h3⟩
+      | op o =>
+        cases o with
+        | read r =>
+          cases sess with
+          | none => exact ⟨d, none, rfl, rfl, rfl⟩
+          | some s0 => exact ⟨d, some s0, rfl, rfl, rfl⟩
+        | mutate f => simp [Ev.conservative] at hpe
+      | close =>
+        cases sess with
+        | none => exact ⟨d, none, rfl, rfl, rfl⟩
+        | some s0 => exact ⟨d, none, rfl, rfl, rfl⟩
+      | remove => simp [Ev.conservative] at hpe
+    obtain ⟨d1, s1, h1, h2, h3⟩ := hstep
+    obtain ⟨d', g1, g2, g3⟩ := ih (fun e he => hp e (List.mem_cons_of_mem _ he)) s1 d1
+    refine ⟨d', ?_, g2.trans h2, g3.trans h3⟩
+    show (evRun (evStep ⟨some d, sess⟩ e).1 evs).1.disk = some d'
+    rw [h1]; exact g1
+
 /-! ## non-vacuity: the hypotheses are met, and every row of the table occurs -/
 
 def demoId : Str := "017d7764-173b-4716-a6c2-45f6d37ddb52".toList
